@@ -745,6 +745,31 @@ func checkHost(c *HostCase) *Outcome {
 	if !m.Identical(got, want) || !sameFieldOrder(got, want) {
 		return bad("converted value %s : %s, the Go value denotes %s : %s (%s)", got.Render(), got.T.OrderString(), want.Render(), want.T.OrderString(), desc)
 	}
+	// (3b) a second value of the same Go type, converted afterwards in the same
+	// process, is converted just as faithfully (nothing learnt from the first
+	// value may leak into the second)
+	if c.V2 != nil {
+		want2, werr2, unspec2 := expect(c.V2, 0)
+		if !unspec2 {
+			v2, verr2, _, _, p2, goV2 := convertOne(c.V2)
+			if p2 != nil {
+				return bad("conversion of a second value panicked: %s (%#v)", p2.Text, goV2)
+			}
+			if werr2 != nil && verr2 == nil {
+				return bad("second value of the same Go type: unsupported / inconsistent data (%v) converted to %s (first value %s; second %#v)", werr2, renderVal(v2), desc, goV2)
+			}
+			if werr2 == nil {
+				if verr2 != nil {
+					return bad("second value of the same Go type rejected: %v (first value %s; second %#v)", verr2, desc, goV2)
+				}
+				got2, probs2 := run.FromYaeVal(v2, want2.T)
+				if len(probs2) > 0 || got2 == nil || !m.Identical(got2, want2) {
+					return bad("second value of the same Go type converts to %s, it denotes %s : %s; problems %v (first value %s; second %#v)", renderVal(v2), want2.Render(), want2.T, probs2, desc, goV2)
+				}
+				classes = append(classes, "second-value-of-same-go-type")
+			}
+		}
+	}
 	// (4) the type depends only on the Go shape, for the stable class
 	st1 := stable(c.V1, false)
 	if c.V2 != nil && st1 && stable(c.V2, false) {
